@@ -543,6 +543,11 @@ def devKind (o : Owner) (a : String) : String :=
 
 def behaviours : Facts := Spec.behaviours
 
+/-- builtin_*.go: `builtin<Name>` ([[Call]]) and `builtinNew<Name>` ([[Construct]]) of every constructor end in the same
+    `rt.new<Name>` (builtin_error.go:7-13, 48-125: each NativeError pair calls `rt.new<Name>Error`); type_function.go:102-113 a bound
+    function constructs through its target; String/Number/Boolean/Date called as functions return the primitive -/
+def routes : Facts := Spec.routes
+
 /-! ### definition.tmpl / prototype.tmpl: the object-level facts -/
 def ownerFacts : List (Owner × Facts) :=
   types.flatMap (fun t =>
